@@ -223,7 +223,9 @@ fn parse_array(data: &[u8]) -> Result<Option<(RespFrame, usize)>> {
     }
     
     let len = len as usize;
-    let mut elements = Vec::with_capacity(len);
+    // Reserve for what can actually be there (an element takes at least 3 bytes), never for a
+    // declared length that has not been received
+    let mut elements = Vec::with_capacity(len.min(data.len().saturating_sub(header_consumed) / 3));
     let mut total_consumed = header_consumed;
     
     for _ in 0..len {
@@ -288,7 +290,7 @@ fn parse_map(data: &[u8]) -> Result<Option<(RespFrame, usize)>> {
     let len = len_str.parse::<usize>()
         .map_err(|_| FerrousError::Protocol("Invalid map length".into()))?;
     
-    let mut pairs = Vec::with_capacity(len);
+    let mut pairs = Vec::with_capacity(len.min(data.len().saturating_sub(header_consumed) / 6));
     let mut total_consumed = header_consumed;
     
     for _ in 0..len {
@@ -328,7 +330,7 @@ fn parse_set(data: &[u8]) -> Result<Option<(RespFrame, usize)>> {
     let len = len_str.parse::<usize>()
         .map_err(|_| FerrousError::Protocol("Invalid set length".into()))?;
     
-    let mut elements = Vec::with_capacity(len);
+    let mut elements = Vec::with_capacity(len.min(data.len().saturating_sub(header_consumed) / 3));
     let mut total_consumed = header_consumed;
     
     for _ in 0..len {
